@@ -98,44 +98,45 @@ def digits : Str → Int → Int × Str
   | c :: cs, v => if isDigit c then digits cs (wrap64 (v * 10 + digitVal c)) else (v, c :: cs)
   | [], v => (v, [])
 
-/-- `getToken`: value of the token of type `tokenType` at the reader, and the
-    type of the token after it. -/
-def getToken (rd : Reader) (tokenType : Tok) : Int × Tok × Reader :=
-  -- the switch: `none` = "return -1, tokenInvalid"
-  let body : Option (Int × Tok × Reader) :=
-    match tokenType with
-    | .digitOrZero =>
-      match rd.rest with
-      | '0' :: cs =>
+/-- The `switch tokenType` of `getToken`: value, the forced next token type
+    (`nt`, `INVALID` = none) and the reader after the token; `none` = the
+    `return -1, tokenInvalid` of an unknown suffix / unexpected type. -/
+def tokenBody (rd : Reader) (tokenType : Tok) : Option (Int × Tok × Reader) :=
+  match tokenType with
+  | .digitOrZero =>
+    match rd.rest with
+    | c :: cs =>
+      if c = '0' then
         -- "Leading zero digits get a special treatment"
-        let (v, rest) := zeros cs (-1)
-        some (v, .digit, { rest := rest, last := none })
-      | _ =>
-        let (v, rest) := digits rd.rest 0
-        some (v, .invalid, { rest := rest, last := none })
-    | .digit | .suffixNo | .revisionNo =>
-      let (v, rest) := digits rd.rest 0
-      some (v, .invalid, { rest := rest, last := none })
-    | .letter =>
-      let (r, _, rd) := rd.read
-      some ((r.toNat : Int), .invalid, rd)
-    | .suffix =>
-      match matchSuffix rd preSuffixes 0 with
-      | some (i, n) => some ((i : Int) - 4, .invalid, rd.discard n)
-      | none =>
-        match matchSuffix rd postSuffixes 0 with
-        | some (i, n) => some ((i : Int), .invalid, rd.discard n)
-        | none => none
-    | _ => none
-  match body with
+        some ((zeros cs (-1)).1, .digit, { rest := (zeros cs (-1)).2, last := none })
+      else some ((digits rd.rest 0).1, .invalid, { rest := (digits rd.rest 0).2, last := none })
+    | [] => some ((digits rd.rest 0).1, .invalid, { rest := (digits rd.rest 0).2, last := none })
+  | .digit | .suffixNo | .revisionNo =>
+    some ((digits rd.rest 0).1, .invalid, { rest := (digits rd.rest 0).2, last := none })
+  | .letter => some ((rd.read.1.toNat : Int), .invalid, rd.read.2.2)
+  | .suffix =>
+    match matchSuffix rd preSuffixes 0 with
+    | some (i, n) => some ((i : Int) - 4, .invalid, rd.discard n)
+    | none =>
+      match matchSuffix rd postSuffixes 0 with
+      | some (i, n) => some ((i : Int), .invalid, rd.discard n)
+      | none => none
+  | _ => none
+
+/-- What follows the switch: `Peek(1)` at end of input gives `END`, a forced
+    type stands, otherwise `nextToken` decides. -/
+def finish (value : Int) (nt : Tok) (rd : Reader) (tokenType : Tok) : Int × Tok × Reader :=
+  let rd : Reader := { rd with last := none }                   -- `Peek(1)`
+  if rd.rest = [] then (value, .tEnd, rd)                        -- … gives io.EOF
+  else if nt ≠ .invalid then (value, nt, rd)
+  else (value, (nextToken rd tokenType).1, (nextToken rd tokenType).2)
+
+/-- `getToken`: value of the token of type `tokenType` at the reader, the
+    type of the token after it, and the reader there. -/
+def getToken (rd : Reader) (tokenType : Tok) : Int × Tok × Reader :=
+  match tokenBody rd tokenType with
   | none => (-1, .invalid, rd)
-  | some (value, nt, rd) =>
-    let rd : Reader := { rd with last := none }                 -- `Peek(1)`
-    if rd.rest = [] then (value, .tEnd, rd)                      -- … gives io.EOF
-    else if nt ≠ .invalid then (value, nt, rd)
-    else
-      let (t, rd) := nextToken rd tokenType
-      (value, t, rd)
+  | some (value, nt, rd') => finish value nt rd' tokenType
 
 /-- The loop of `Valid`. -/
 def validLoop : Nat → Reader → Tok → Bool
